@@ -34,6 +34,17 @@ func init() {
 		Run: runROOTCLAUSES,
 	})
 	Register(&Rule{
+		ID:    "ROOTEXACT",
+		Props: []string{"C05", "C19"},
+		Min:   4,
+		Doc: "the root check rejects nothing but what C19 lists (so every root MakeRoot produced loads again): each branch of the validator (and of the " +
+			"node check on the decoding path) whose taken edge reaches only error returns is either the test of an error a callee returned, or a " +
+			"comparison over a clause's value classes that holds for no conforming value — exactly len(Key)≠len(Value), len(Link)≠len(Key)+1 " +
+			"(or len(Link)≠len(Value)+1), keyOrder(previous, next)≥0, keyLayer(key, m.branchFactor)<m.height after operator normalisation; " +
+			"a rejecting branch over values the rule cannot classify is undecided.",
+		Run: runROOTEXACT,
+	})
+	Register(&Rule{
 		ID:    "NOPANICLOAD",
 		Props: []string{"C19"},
 		Min:   2,
@@ -504,6 +515,10 @@ type lmCand struct {
 	note   string
 	status int
 	why    string
+	// rej: does the edge reject (steps 1 and 2 of gate: it reaches only error
+	// returns and every caller passes the error on), whether or not the
+	// branch can be bypassed — what matters for over-rejection.
+	rej int
 }
 
 type lmCallNote struct {
@@ -529,6 +544,7 @@ type lmAn struct {
 	// preAcc: count differences a node can still have when the validator sees
 	// it, given what the load path already rejected (axis -> accepted values).
 	preAcc map[int][]int64
+	frs    []*lmFrame // every frame walked
 }
 
 func (an *lmAn) cl(v ssa.Value, fr *lmFrame) *lmVal {
@@ -1009,6 +1025,7 @@ func lmOnStack(fr *lmFrame, g *ssa.Function) bool {
 }
 
 func (an *lmAn) walk(fr *lmFrame) {
+	an.frs = append(an.frs, fr)
 	an.frames++
 	if an.frames > 64 {
 		return
@@ -1217,6 +1234,7 @@ func (an *lmAn) nodeErrEdge(from, to *ssa.BasicBlock) bool {
 func (an *lmAn) gate(cd *lmCand) {
 	P := an.c.P
 	cd.status = lmGood
+	cd.rej = lmBad
 	// 1. the edge rejects in its own function
 	k, why := lpRejects(P, cd.iff.Block().Succs[cd.edge])
 	lmWorse(cd, lmFromErr(k), "the edge taken when `"+cd.desc+"` "+why)
@@ -1228,6 +1246,7 @@ func (an *lmAn) gate(cd *lmCand) {
 		k, why := lpPropagates(P, f.site)
 		lmWorse(cd, lmFromErr(k), fmt.Sprintf("the error of helper %s is not propagated by %s: %s", ir.FuncName(f.fn), ir.FuncName(f.parent.fn), why))
 	}
+	cd.rej = cd.status
 	// 3. the branch cannot be bypassed
 	pivot := cd.iff.Block()
 	for f := cd.fr; f != nil; f = f.parent {
@@ -2121,6 +2140,7 @@ type lmLoader struct {
 	exempt []string         // node sources that are not decoded here
 	opaque []string         // node sources the rule cannot follow: nothing is assumed
 	seeded int
+	cands  []*lmCand // the gated candidates of the decoding path (for ROOTEXACT)
 }
 
 // loaderOf analyses the load primitive called at nc (and the loaders it
@@ -2163,6 +2183,7 @@ func (an *lmAn) loaderOf(nc *ssa.Call) *lmLoader {
 				}
 				for _, cd := range sub.cands {
 					sub.gate(cd)
+					L.cands = append(L.cands, cd)
 					if cd.clause != 1 && cd.clause != 2 && cd.clause != 5 {
 						continue
 					}
@@ -2925,4 +2946,171 @@ func lmSameCellLoad(fn *ssa.Function, a, b ssa.Value) bool {
 		}
 	}
 	return true
+}
+
+// ---- ROOTEXACT: the root check rejects no conforming root -----------------------
+
+// lmOverRejects: does atom hold for a difference the clause does not list?
+func lmOverRejects(clause int, a lmAtom) (bool, int64) {
+	probes := []int64{0, 1, -1, 2, -2, 3, -3, 1000000, -1000000}
+	for d := int64(-2); d <= 2; d++ {
+		probes = append(probes, a.d+d)
+	}
+	for _, x := range probes {
+		if !lmRequired(clause, x) && a.holds(x) {
+			return true, x
+		}
+	}
+	return false, 0
+}
+
+func lmOverText(clause int, x int64) string {
+	switch clause {
+	case 1:
+		return "a node with as many values as keys"
+	case 2, 5:
+		return "a node with one link more than entries"
+	case 3:
+		return fmt.Sprintf("strictly ascending adjacent keys for which the comparator returns %d", x)
+	case 4:
+		if x == 0 {
+			return "a key whose layer equals the recorded height"
+		}
+		return "a key whose layer is above the recorded height (legal: the height is capped by the size rule)"
+	}
+	return "a conforming node"
+}
+
+func runROOTEXACT(c *Ctx) {
+	P := c.P
+	lm := c.MustFunc("(*Root).LoadMast")
+	if lm == nil {
+		return
+	}
+	vals := lmValidators(c, lm)
+	if len(vals) == 0 {
+		c.AnchorMissing("root validator called from LoadMast")
+		return
+	}
+	an := &lmAn{c: c, memo: map[lmKey]*lmVal{}, loops: map[lmKey]*lmLoop{}, near: map[int][]string{}, nearUnd: map[int][]string{}, nearPos: map[int]string{}}
+	for _, v := range vals {
+		mp := lpMastParam(v.fn)
+		an.walk(&lmFrame{fn: v.fn, env: map[*ssa.Parameter]*lmVal{v.fn.Params[mp]: {k: lmMast}}})
+	}
+	cands := append([]*lmCand(nil), an.cands...)
+	frames := append([]*lmFrame(nil), an.frs...)
+	for _, cd := range an.cands {
+		an.gate(cd)
+	}
+	for _, nc := range an.nodeCalls {
+		l := an.loaderOf(nc)
+		for _, cd := range l.cands {
+			cands = append(cands, cd)
+			dup := false
+			for _, f := range frames {
+				if f == cd.fr {
+					dup = true
+				}
+			}
+			if !dup {
+				frames = append(frames, cd.fr)
+			}
+		}
+	}
+	// (1) every rejecting comparison over a clause's classes is no stronger than the clause
+	matched := map[*ssa.If]bool{}
+	for _, cd := range cands {
+		matched[cd.iff] = true
+		if cd.rej == lmBad {
+			continue
+		}
+		name := lmClauseName[cd.clause]
+		if cd.clause == 5 {
+			name = "len(Link)≠len(Value)+1"
+		}
+		pos := P.InstrPos(cd.iff)
+		what := fmt.Sprintf("rejecting branch `%s` in %s", cd.desc, ir.FuncName(cd.fr.fn))
+		over, x := lmOverRejects(cd.clause, cd.atom)
+		switch {
+		case !over:
+			c.OK(pos, what, "holds only for nodes that clause "+name+" lists", false)
+		case cd.rej == lmUnd:
+			c.Undecided(cd.fr.fn, pos, "stronger than clause "+name, fmt.Sprintf("`%s` holds for %s; whether the edge rejects is not decided: %s", cd.desc, lmOverText(cd.clause, x), cd.why))
+		default:
+			c.Violation(cd.fr.fn, pos, "stronger than clause "+name,
+				fmt.Sprintf("the root check rejects when `%s`, which also holds for %s: a root that conforms to the configuration (one MakeRoot produced) is refused by LoadMast; the clause is exactly %s", cd.desc, lmOverText(cd.clause, x), name))
+		}
+	}
+	// (2) every other purely rejecting branch tests an error a callee returned
+	seenFn := map[*ssa.Function]bool{}
+	for _, fr := range frames {
+		if seenFn[fr.fn] || ir.ErrorResultIndex(fr.fn.Signature) < 0 {
+			continue
+		}
+		seenFn[fr.fn] = true
+		for _, b := range fr.fn.Blocks {
+			if len(b.Instrs) == 0 || len(b.Succs) != 2 || b.Succs[0] == b.Succs[1] {
+				continue
+			}
+			iff, ok := b.Instrs[len(b.Instrs)-1].(*ssa.If)
+			if !ok || matched[iff] {
+				continue
+			}
+			if _, known := ir.ConstBool(iff.Cond); known {
+				continue
+			}
+			r0, _ := lpRejects(P, b.Succs[0])
+			r1, _ := lpRejects(P, b.Succs[1])
+			if (r0 == lpErrNonNil) == (r1 == lpErrNonNil) {
+				continue // not a branch one side of which only rejects
+			}
+			pos := P.InstrPos(iff)
+			if tv, _, ok := ir.NilTest(iff.Cond); ok && ir.IsErrorType(tv.Type()) {
+				c.OK(pos, "rejecting branch on an error value in "+ir.FuncName(fr.fn), "passes on the failure of "+lpDesc(tv, 0), true)
+				continue
+			}
+			// a comparator test of one particular adjacent pair (Key[0], Key[1])
+			if A, B, op, ok := an.rel(iff.Cond, fr); ok {
+				if r0 != lpErrNonNil {
+					op = lpNegOp(op)
+				}
+				if at, ok := lmPairOrder(A, B, op); ok {
+					what := fmt.Sprintf("rejecting branch `%s %s %s` in %s", A, op, B, ir.FuncName(fr.fn))
+					if over, x := lmOverRejects(3, at); over {
+						c.Violation(fr.fn, pos, "stronger than clause "+lmClauseName[3],
+							fmt.Sprintf("the node check rejects when `%s %s %s`, which also holds for %s: a conforming root is refused by LoadMast", A, op, B, lmOverText(3, x)))
+					} else {
+						c.OK(pos, what, "holds only for a descending or equal adjacent pair, which clause "+lmClauseName[3]+" lists", false)
+					}
+					continue
+				}
+			}
+			c.Undecided(fr.fn, pos, "rejecting branch `"+lpDescCond(iff.Cond, r0 == lpErrNonNil)+"`",
+				"the root check rejects on a condition that is neither a callee's error nor a comparison over the value classes of a C19 clause; whether it refuses conforming roots is not decided")
+		}
+	}
+}
+
+// lmPairOrder: `A op B` compares keyOrder of two adjacent constant-index keys
+// with a constant; returns the atom over keyOrder(previous, next).
+func lmPairOrder(A, B *lmVal, op token.Token) (lmAtom, bool) {
+	if B.k == lmCmp && A.k == lmConst {
+		A, B = B, A
+		op = lpFlipOp(op)
+	}
+	if A.k != lmCmp || B.k != lmConst || A.a == nil || A.b == nil {
+		return lmAtom{}, false
+	}
+	a, b := A.a, A.b
+	if a.k != lmElem || b.k != lmElem || !a.constIdx || !b.constIdx {
+		return lmAtom{}, false
+	}
+	d := B.add - A.add
+	switch {
+	case b.off == a.off+1:
+		return lmAtom{op, d}, true
+	case a.off == b.off+1:
+		return lmAtom{lpFlipOp(op), -d}, true
+	}
+	return lmAtom{}, false
 }
